@@ -472,6 +472,9 @@ func (j *journalPV) SignVote(chainID string, vote *tmproto.Vote) error {
 		rec.Seq = j.n.P.nextSeq()
 		j.n.P.SignLog = append(j.n.P.SignLog, rec)
 	}
+	if os.Getenv("VERIF_DEBUG_WAL") != "" {
+		fmt.Printf("DBG sign vote inc=%d ord=%d %v h=%d r=%d block=%X err=%v\n", j.n.P.Inc, j.n.ordinal, vote.Type, vote.Height, vote.Round, vote.BlockID.Hash, err)
+	}
 	j.n.C.Point("sign.Vote:after")
 	return err
 }
@@ -489,6 +492,9 @@ func (j *journalPV) SignProposal(chainID string, p *tmproto.Proposal) error {
 		}
 		rec.Seq = j.n.P.nextSeq()
 		j.n.P.SignLog = append(j.n.P.SignLog, rec)
+	}
+	if os.Getenv("VERIF_DEBUG_WAL") != "" {
+		fmt.Printf("DBG sign proposal inc=%d ord=%d h=%d r=%d block=%X err=%v\n", j.n.P.Inc, j.n.ordinal, p.Height, p.Round, p.BlockID.Hash, err)
 	}
 	j.n.C.Point("sign.Proposal:after")
 	return err
@@ -648,11 +654,13 @@ func Boot(p *Persist, armAt int) (n *PNode, crashed *CrashSignal, err error) {
 	// mkCS builds a consensus State over the stores and starts it. The WAL is opened here, not by OnStart, so that the
 	// crash-injecting wrapper is in place before Start() (catch-up replay and the receive routine then already write
 	// through it); OnStart only opens the WAL when none is set.
-	mkCS := func(st sm.State) error {
+	mkCS := func(st sm.State, withSigner bool) error {
 		n.CS = consensus.NewState(ccfg, st, exec, n.BlockStore, mp, sm.EmptyEvidencePool{})
 		n.CS.SetLogger(n.logger)
-		pv := privval.LoadFilePV(p.keyFile(), p.stateFile())
-		n.CS.SetPrivValidator(&journalPV{pv: pv, n: n})
+		if withSigner {
+			pv := privval.LoadFilePV(p.keyFile(), p.stateFile())
+			n.CS.SetPrivValidator(&journalPV{pv: pv, n: n})
+		}
 		n.CS.SetEventBus(n.Bus)
 		n.Ticker = consensus.NewVerifTicker()
 		n.CS.SetTimeoutTicker(n.Ticker)
@@ -673,15 +681,23 @@ func Boot(p *Persist, armAt int) (n *PNode, crashed *CrashSignal, err error) {
 		}
 		return nil
 	}
-	if err := mkCS(state); err != nil {
+	// A log with a damaged or torn record makes OnStart repair the file and REPLACE the WAL object: from then on that
+	// State logs to a WAL the crash-injecting wrapper does not see (and swapping it under the running receive routine
+	// is a data race). So a damaged log is first handed to a State WITHOUT signing key - a node started as a
+	// non-validator: the real OnStart decides about and performs the repair, nothing is signed, nothing that matters is
+	// logged - which is stopped again; then the node proper starts over the repaired log. (Letting the first State keep
+	// the key gave it a short, unobserved life in which it could sign a vote and be stopped before logging it: an
+	// unmodelled crash point, and a false "node does not go on committing" about twice in 150 000 cases.)
+	withSigner := !walDirty(p.walFile())
+	if err := mkCS(state, withSigner); err != nil {
 		return n, nil, err
 	}
 	n.started = true
-	if n.CS.VerifWAL() != consensus.WAL(n.WAL) {
+	if !withSigner || n.CS.VerifWAL() != consensus.WAL(n.WAL) {
 		// The start-up repair path replaced the WAL object (corrupted file): this State now logs to a WAL the wrapper
 		// does not see, and swapping it under the running receive routine would be a data race. So this State is
 		// stopped again - an operator restarting twice - and a second one is started over the repaired log.
-		n.Repaired = true
+		n.Repaired = n.CS.VerifWAL() != consensus.WAL(n.WAL)
 		n.CS.Stop() //nolint
 		select {
 		case <-n.CS.VerifDone():
@@ -697,8 +713,11 @@ func Boot(p *Persist, armAt int) (n *PNode, crashed *CrashSignal, err error) {
 		if err != nil {
 			return n, nil, err
 		}
+		if os.Getenv("VERIF_DEBUG_WAL") != "" {
+			DumpWAL(p.walFile(), "between the two States of one boot (after the start-up repair)")
+		}
 		n.started = false // an injected crash inside the second Start() leaves a State whose routine never ran
-		if err := mkCS(st2); err != nil {
+		if err := mkCS(st2, true); err != nil {
 			return n, nil, err
 		}
 		n.started = true
